@@ -10,6 +10,10 @@ Two more routes (quick tier too):
               text field and as a quoted string, preceded by short items, parsed from a document the executor renders; the
               value read back (get_value, iteration, walk) must have the text written (long texts are compared as length +
               hash, and the executor reports the first differing index);
+  parseloop — composite and scalar values alternating in ONE column of a loop with >= 3 packets that is written and parsed
+              back: lists of different lengths (incl. empty) and tables with different key sets (incl. a key dropped, the
+              empty table) in consecutive packets; every packet is read back (get_value: the first; iteration and walk:
+              all) and must be the value written for THAT packet (the parser re-uses one value object per column);
   itsession — one packet iterator: update of packet 1 (must succeed), an update at packet 2 with a packet carrying an item
               of another loop (must be rejected), update of packet 3 (must succeed), close; read back by iteration: packets
               1 and 3 hold the value, packet 2 still holds the unknown value it had."""
@@ -27,7 +31,9 @@ RULE = ("random values (all kinds; nested lists/tables to depth 4 quick / 8 thor
         "512 * 1.5^k) x 5 storing routes x 3 ways of changing the caller's object afterwards; plus route bigparse: character values of "
         "70 000 / 140 000 / 204 000 units and random lengths around the 131 200-unit scan buffer, as text field and as quoted string, "
         "after three short items, parsed from a document rendered by the executor; plus route itsession: one packet iterator, update "
-        "packet 1, rejected update (item of another loop) at packet 2, update packet 3, close, read back; "
+        "packet 1, rejected update (item of another loop) at packet 2, update packet 3, close, read back; plus route parseloop: one column of "
+        "a loop with 3-40 packets written and parsed back, lists of changing length (incl. empty) and tables of changing key sets "
+        "(incl. a dropped key, the empty table) in consecutive packets, alternating with scalars, every packet compared; "
         "non-trivial = a list, table or number, every bigparse and itsession case")
 BIG_LENGTHS = [70000, 140000, 204000]
 ROUTES = ["set", "additem", "addpkt", "update", "parse"]
@@ -80,9 +86,49 @@ def for_parse(tree):
     return tree
 
 
+def loop_column(r, quick):
+    """values of one loop column, packet by packet: runs of lists / tables of changing shape, separated by scalars"""
+    def lst(n):
+        return ("L", [leaf(r, 12) if r.random() < 0.8 else G.rand_tree(r, 1, widths=(0, 1, 2), maxlen=8, leaf=leaf) for _ in range(n)])
+    keys = [G.units_of(k) for k in ("a", "b", "c", "key 4", "\u00e9", "k6")]
+    def tbl(ks):
+        return ("T", [(k, leaf(r, 12)) for k in ks])
+    out = []
+    for _ in range(r.randint(1, 3)):
+        kind = r.random()
+        if kind < 0.45:
+            lens = r.choice([[3, 1, 0], [0, 2, 2], [2, 5, 1, 0, 1], [1, 1], [4, 0, 3]])
+            out += [lst(n) for n in lens]
+        elif kind < 0.9:
+            ks = r.sample(keys, r.randint(2, 4))
+            seq = [ks, ks[:-1], [], ks[1:] + [r.choice(keys)], [ks[0]]]
+            seen = []
+            for q in seq[:r.randint(2, 5)]:
+                uniq = []
+                for k in q:
+                    if k not in uniq:
+                        uniq.append(k)
+                seen.append(tbl(uniq))
+            out += seen
+        else:
+            out += [lst(2), tbl(keys[:2]), lst(1), tbl(keys[1:3])]
+        out.append(leaf(r, 20))
+    while len(out) < 3:
+        out.append(lst(r.randint(0, 3)))
+    return [for_parse(t) for t in out[:40]]
+
+
 def generate(seed, tier):
     r = rng(seed, FAMILY)
     quick = tier == "quick"
+    for _ in range(150 if quick else 3000):
+        col = loop_column(r, quick)
+        pairs = []
+        for t in col:
+            for p in G.norm_tokens(t):
+                if p not in pairs:
+                    pairs.append(p)
+        yield "storeval parseloop 0 " + " ".join(pairs + [" | ".join(" ".join(G.tokens_of(t)) for t in col)])
     for n in BIG_LENGTHS:
         for style in "tq":
             yield "storeval bigparse %d %s %d" % (n, style, r.randint(0, 10 ** 6))
@@ -130,6 +176,18 @@ def oracle(req, impl):
     rc, o, g, i, w, verdict = m.groups()
     if rc != "0":
         return "storing the value failed with code %s" % rc
+    if route == "parseloop":
+        want = o.split(",")
+        for name, got in (("packet iteration", i.split(",")), ("cif_walk", w.split(","))):
+            if len(got) != len(want):
+                return "%s delivers %d packets, %d were written" % (name, len(got), len(want))
+            for k, (a, b) in enumerate(zip(want, got)):
+                if a != b:
+                    return ("packet %d of the parsed loop reads back (%s) different from the value written for it: written %s, read %s"
+                            % (k + 1, name, a[:200], b[:200]))
+        if g != want[0]:
+            return "cif_container_get_value returns %s, the first packet was written as %s" % (g[:200], want[0][:200])
+        return None
     if route == "bigparse" and verdict != "same":
         return "the %s-unit value read back after parsing differs from the text written (%s): written %s, read %s" % (
             req.split(" ")[2], verdict, o[:80], g[:80])
@@ -199,13 +257,15 @@ def _first(req):
 
 def nontrivial(req, impl):
     k = _first(req)
-    if req.split(" ")[1] in ("bigparse", "itsession"):
+    if req.split(" ")[1] in ("bigparse", "itsession", "parseloop"):
         return True
     return k in ("[", "{") or k.startswith("M")
 
 
 def classify(req, impl):
     t = req.split(" ")
+    if t[1] == "parseloop":
+        return "parseloop %s packets" % ("<=5" if req.count(" | ") < 5 else ">5")
     k = _first(req)
     kind = "list" if k == "[" else ("table" if k == "{" else {"U": "unk", "N": "na", "C": "char", "M": "numb"}[k[0]])
     return "%s %s" % (t[1], kind)
@@ -218,6 +278,13 @@ def shrink(req):
         for c in (n // 2, n - 10000, n - 1000, n - 100):
             if c > 0:
                 yield "storeval bigparse %d %s %s" % (c, t[3], t[4])
+        return
+    if t[1] == "parseloop":
+        vals = " ".join(x for x in t[3:] if not x.startswith("@")).split(" | ")
+        pre = " ".join(t[:3] + [x for x in t[3:] if x.startswith("@")])
+        for k in range(len(vals)):
+            if len(vals) > 1:
+                yield pre + " " + " | ".join(vals[:k] + vals[k + 1:])
         return
     import ser
     if t[1] == "itsession":
